@@ -41,10 +41,42 @@ OUTS = ["scalar", "vec3", "mat22", "tuple"]
 SPLIT = 0.3125   # adjacent intervals meet at xl + SPLIT*(xu-xl)
 
 
+# call-order (history) plane: sequences of quad calls in ONE fresh interpreter; every result must be bit-identical
+# to the result of the same call made first in a fresh interpreter (no state may leak from one call into the next:
+# e.g. node tables cached under a key that omits the dtype)
+HIST_CALLS = [("float32", 5, "sym"), ("float64", 5, "sym"), ("float64", 6, "sym"), ("float32", 5, "ninf_inf"),
+              ("float64", 5, "ninf_inf"), ("float64", 5, "1_inf")]
+
+_HIST_CODE = r'''
+import json, sys, torch
+torch.set_num_threads(1)
+from xitorch.integrate import quad
+INF = float("inf")
+IV = {"sym": (-1.0, 1.0), "ninf_inf": (-INF, INF), "1_inf": (1.0, INF)}
+def f(x, dt):
+    x = torch.as_tensor(x, dtype=dt)
+    return torch.exp(-x * x) * (1.0 + 0.5 * torch.cos(3.0 * x)) + 1.0 / (1.0 + x * x) ** 2
+out = []
+for (dtn, n, iv) in json.loads(sys.argv[1]):
+    dt = getattr(torch, dtn)
+    xl, xu = IV[iv]
+    y = quad(lambda x: f(x, dt), xl, xu, n=n)
+    out.append([str(y.dtype), float(y).hex()])
+print(json.dumps(out))
+'''
+
+
 def cases(tier, seed):
     ns = NS_QUICK if tier == "quick" else NS_THOROUGH
     forms = FORMS_QUICK if tier == "quick" else FORMS_THOROUGH
     out = []
+    import itertools
+    depth = 2 if tier == "quick" else 3
+    hist = []
+    for seq in itertools.product(range(len(HIST_CALLS)), repeat=depth):
+        if len(set(seq)) == 1:
+            continue
+        hist.append({"kind": "history", "seq": list(seq)})
     for n in ns:
         for iname, (xl, xu) in qc.INTERVALS.items():
             for form in forms:
@@ -54,6 +86,10 @@ def cases(tier, seed):
                 for o in OUTS:
                     for dt in ("float64", "float32"):
                         out.append({"n": n, "interval": iname, "form": form, "out": o, "dtype": dt})
+    # the history cases cost a fresh interpreter each: spread them evenly so that they do not share one work chunk
+    stride = max(1, len(out) // max(1, len(hist)))
+    for k, h in enumerate(hist):
+        out.insert(min(len(out), 2 + k * (stride + 1)), h)
     return out
 
 
@@ -111,8 +147,45 @@ def _assemble(comps, layout, is_tuple):
 
 # ------------------------------------------------------------------ the case
 
+_BASE = {}
+
+
+def _hist_run(seq):
+    import json
+    from mc.util import fresh_python
+    code = _HIST_CODE.replace("sys.argv[1]", repr(json.dumps([list(HIST_CALLS[i]) for i in seq])))
+    return fresh_python(code)
+
+
+def _run_history(cfg):
+    seq = cfg["seq"]
+    res, err = _hist_run(seq)
+    if err is not None:
+        return {"viol": [V("history:exception-in-fresh-interpreter", {"error": err, "sequence": [list(HIST_CALLS[i]) for i in seq]})],
+                "obs": {"err": err[:80]}, "status": "violation", "n": len(seq), "states": len(seq), "transitions": len(seq)}
+    viol = []
+    nexec = len(seq)
+    for k, i in enumerate(seq):
+        if i not in _BASE:
+            b, e2 = _hist_run([i])
+            nexec += 1
+            if e2 is not None:
+                raise RuntimeError("baseline call failed in a fresh interpreter: %s" % e2)
+            _BASE[i] = b[0]
+        if res[k] != _BASE[i]:
+            viol.append(V("history:result-depends-on-earlier-calls",
+                          {"sequence": [list(HIST_CALLS[j]) for j in seq], "position": k, "call": list(HIST_CALLS[i]),
+                           "in_sequence": res[k], "alone": _BASE[i],
+                           "difference": abs(float.fromhex(res[k][1]) - float.fromhex(_BASE[i][1]))}, position=k))
+            break
+    return {"viol": viol, "obs": {"seq": seq, "res": [r[1] for r in res]}, "status": "violation" if viol else "ok",
+            "n": nexec, "states": len(seq), "transitions": len(seq)}
+
+
 def run_case(cfg):
     from xitorch.integrate import quad
+    if cfg.get("kind") == "history":
+        return _run_history(cfg)
     n, iname, form, okind, dtn = cfg["n"], cfg["interval"], cfg["form"], cfg["out"], cfg["dtype"]
     dt = qc.DTYPES[dtn]
     eps = qc.eps_of(dtn)
